@@ -144,7 +144,7 @@ def tokens_types(line):
 
 # ----------------------------------------------------------------------------------------------------------------
 # whole binary
-def make_config(d, name, cells, subgrids, periodic=(True, True, True), copy_level=None, sides=(20., 20., 20.), turbulence=False, forcing_step="0.00002"):
+def make_config(d, name, cells, subgrids, periodic=(True, True, True), copy_level=None, sides=(20., 20., 20.), turbulence=False, forcing_step="0.00002", mask=False):
     """a variant of harness/configs/hydro.param in directory d"""
     txt = open(os.path.join(CONFIGS, "hydro.param")).read()
     txt = txt.replace("number of cells: [18, 18, 18]", "number of cells: [%d, %d, %d]" % tuple(cells))
@@ -157,6 +157,12 @@ def make_config(d, name, cells, subgrids, periodic=(True, True, True), copy_leve
     if turbulence:
         txt = txt.replace("  random seed: 42", "  random seed: 42\n  turbulent forcing: true")
         txt += "TurbulenceForcing:\n  time step: %s s\n" % forcing_step + "  forcing power: 5.e9 m^2 s^-3\n  minimum wave number: 1.\n  maximum wave number: 3.\n"
+    if mask:
+        # a RescaledIC mask inside the moving sphere (all masked cells have non-zero velocity, so that applying the mask is not idempotent
+        # on the conserved energy); delta t 0: the mask is applied after every step
+        txt = txt.replace("  random seed: 42", "  random seed: 42\n  use mask: true")
+        txt += ("HydroMask:\n  type: RescaledIC\n  center: [-2. m, 1. m, 3. m]\n  radius: 2.6 m\n  scale factor density: 0.5\n  scale factor velocity: 1.\n"
+                "  scale factor pressure: 0.5\n  delta t: 0. s\n")
     open(os.path.join(d, name), "w").write(txt)
 
 
@@ -205,10 +211,14 @@ def parse_prefix(inv, sizes, data):
     timers, seed = [], None
     pos = 0
 
+    last_count = [0]
+
     def prim(cxx):
         nonlocal pos
         kind, size, _ = sizes[cxx]
         if kind in ("bool", "int", "float", "raw"):
+            if kind == "int" and size == 8:
+                last_count[0] = struct.unpack_from("<Q", data, pos)[0]
             pos += size
         elif kind == "string":
             n = struct.unpack_from("<Q", data, pos)[0]
@@ -230,13 +240,30 @@ def parse_prefix(inv, sizes, data):
             elif t[0] == "call":
                 c = inv["classes"][t[1]]
                 walk(c["writer"])
+            elif t[0] == "loop":
+                # the writers of the optional components write an element count and then the elements
+                n = last_count[0]
+                if n > len(data):
+                    raise StopIteration
+                for _ in range(n):
+                    walk(t[1])
             else:
                 raise StopIteration
     try:
         for t in inv["top_writer"]:
             start = pos
-            if t[0] == "if" and ("mask" in t[1] or "turbulence" in t[1]):
-                continue        # optional components that the hydro configurations of this check do not use
+            if t[0] == "if" and "mask" in t[1]:
+                # optional component: present when the dump continues with the type tag of a hydro mask (the factory writes the tag and
+                # then the state of the mask itself)
+                n = struct.unpack_from("<Q", data, pos)[0]
+                tag = data[pos + 8:pos + 8 + n] if 0 < n < 64 else b""
+                if b"HydroMask" in tag:
+                    pos += 8 + n
+                    cls = tag.decode().lstrip("0123456789")
+                    walk(inv["classes"][cls]["writer"])
+                continue
+            if t[0] == "if" and "turbulence" in t[1]:
+                continue        # written after random_seed
             walk([t])
             if t[0] == "call" and t[1] == "Timer":
                 timers.append((start, pos))
@@ -495,8 +522,8 @@ def trace_tie(ck, b, exe):
 
 def configs_for(tier_quick):
     C = [dict(name="hydro 18^3 cells in 2x2x2 subgrids (9 cells on 10 m), periodic, moving sphere, source copies", param="hydro.param", make=None),
-         dict(name="hydro 15x14x4 cells in 3x2x1 subgrids (5x7x4 cells per subgrid), box 20^3, periodic in y only, copy level 1", param="geo3.param",
-              make=dict(cells=(15, 14, 4), subgrids=(3, 2, 1), periodic=(False, True, False), copy_level=1))]
+         dict(name="hydro 15x14x4 cells in 3x2x1 subgrids (5x7x4 cells per subgrid), box 20^3, periodic in y only, copy level 1, RescaledIC hydro mask inside the moving sphere", param="geo3.param",
+              make=dict(cells=(15, 14, 4), subgrids=(3, 2, 1), periodic=(False, True, False), copy_level=1, mask=True))]
     if not tier_quick:
         C.append(dict(name="hydro 15x14x8 cells in 3x2x2 subgrids (5x7x4 cells per subgrid), box 20x20x20, periodic, copy level 1", param="geo2.param",
                       make=dict(cells=(15, 14, 8), subgrids=(3, 2, 2), copy_level=1)))
